@@ -166,4 +166,13 @@ example : F32.trunc (F32.mul12 F32.f4096) = 4915 := by decide
 example : F32.bits F32.f4096 = 0x45800000 := by decide
 example : F32.bits (F32.mul12 F32.f4096) = 0x4599999A := by decide
 
+-- non-vacuity of `hsmall` (and so of the three termination theorems): a serializer of one byte per entry
+-- with budget 1 meets it, and for it the loop as written returns on every entry list
+/-- toy serializer for the non-vacuity checks: one byte per entry -/
+def toySer (l : List Entry) : Bytes := List.replicate l.length 0
+example : ∀ l : List Entry, l.length ≤ 1 → (toySer l).length ≤ 1 := by
+  intro l h; simpa [toySer] using h
+example (es : List Entry) : ∃ b, F32.optimizeF toySer 1 es (F32.init es.length) (es.length + 1) = some b ∧ OptResult toySer 1 es b :=
+  opt_terminates_code toySer 1 es (by intro l h; simpa [toySer] using h)
+
 end Pm.C05
